@@ -200,7 +200,11 @@ func (in *Interp) checkAssert(label string, c Term, note string) {
 			R.noteAssert(in, label, "trivially-true", 0, 0)
 			return
 		}
+		n0 := len(in.violations)
 		in.reportViolation(label, mkBool(true), note)
+		if len(in.violations) == n0 {
+			panic(pathEnd{"infeasible"}) // the path condition turned out unsatisfiable (a branch kept on an unknown feasibility verdict)
+		}
 		panic(pathEnd{"violation"})
 	}
 	if in.sess.Quiet() {
